@@ -417,10 +417,10 @@ def _mutate_tpe(ev):
 C14 = dict(
     family="tpe", trace_module="Trace_Tpe.tla",
     models=[dict(name="mc_tpe", module="MC_Tpe.tla", cfg=dict(quick="MC_Tpe.cfg", thorough="MC_Tpe.cfg"),
-                 cases=_tpe_case, setup=_tpe_setup, limit=dict(quick=1200, thorough=None)),
+                 cases=_tpe_case, setup=_tpe_setup, limit=dict(quick=1200, thorough=14000)),
             dict(name="mc_query", module="MC_Query.tla", cfg=dict(quick="MC_Query.cfg", thorough="MC_Query.cfg"), family="query",
                  cases=lambda world, c, i: dict(id=i, pols=c["pols"], base=c["base"]), setup=_tpe_setup,
-                 limit=dict(quick=1500, thorough=None))],
+                 limit=dict(quick=1500, thorough=14000))],
     nontrivial=lambda ev: ev.get("ev") in ("Tpe", "Query"),
     key=lambda ev: [ev.get("pols"), ev.get("base"), ev.get("erase")],
     mutate=_mutate_tpe, chunk=150,
@@ -534,10 +534,10 @@ _RAND_NOTE = (" R: additionally %s random strictly valid policy sets (1-3 polici
               "form) drawn per run from the seed, combined by the same TLC generator with its coordinates and judged by the same trace specification.")
 C14["models"] += [
     dict(name="mc_tpe_rand", module="MC_Tpe.tla", cfg=dict(quick="MC_Tpe.cfg", thorough="MC_Tpe.cfg"), pre=randpols.pre(dict(quick=60, thorough=400)),
-         cases=_tpe_case, setup=_tpe_setup, limit=dict(quick=500, thorough=12000)),
+         cases=_tpe_case, setup=_tpe_setup, limit=dict(quick=500, thorough=5000)),
     dict(name="mc_query_rand", module="MC_Query.tla", cfg=dict(quick="MC_Query.cfg", thorough="MC_Query.cfg"), family="query",
          pre=randpols.pre(dict(quick=60, thorough=400)),
-         cases=lambda world, c, i: dict(id=i, pols=c["pols"], base=c["base"]), setup=_tpe_setup, limit=dict(quick=500, thorough=12000)),
+         cases=lambda world, c, i: dict(id=i, pols=c["pols"], base=c["base"]), setup=_tpe_setup, limit=dict(quick=500, thorough=5000)),
 ]
 C14["rule"] += _RAND_NOTE % "60 (quick) / 400 (thorough)"
 C15["models"] += [dict(name="mc_batched_rand", module="MC_Batched.tla", cfg=dict(quick="MC_Batched.cfg", thorough="MC_Batched.cfg"),
